@@ -27,6 +27,13 @@ import (
 type c16Tube struct {
 	Rel bool `json:"rel"`
 	ByA bool `json:"byA"`
+	// Late: the tube is not established before the program starts. It is opened OpenMs after the program began, on
+	// the network as the case left it (lossy, dead, failing), so that the program's Close / Stop calls - and the
+	// forced close behind Stop - meet a tube whose initiation is still under way on one or both ends (or never
+	// completes). The accepting end exists once the peer's muxer hands it out; operations on an end that does not
+	// exist (yet) wait up to 2 virtual seconds for it and are skipped otherwise.
+	Late   bool `json:"late,omitempty"`
+	OpenMs int  `json:"openMs,omitempty"`
 }
 
 type c16Op struct {
@@ -75,6 +82,24 @@ var c16Points = []string{
 	"tubes.Reliable.initiate.sent",
 	"tubes.Unreliable.Close.enter", "tubes.Unreliable.Close.swapped", "tubes.Unreliable.Close.initDone", "tubes.Unreliable.receive.enter",
 	"tubes.Unreliable.WriteMsgUDP.enter", "tubes.Unreliable.sender.loop",
+	// appended (stored cases address points by index): the gap in Reliable.initiate between "initiation frame seen"
+	// and taking the lifecycle lock to start the sender
+	"tubes.Reliable.initiate.beforeStart",
+}
+
+// points that lie on the initiation / forced-close path: cases with late tubes draw half of their yields from these
+var c16InitPoints = []string{
+	"tubes.Reliable.initiate.sent", "tubes.Reliable.initiate.beforeStart", "tubes.Muxer.Stop.forceTimer",
+	"tubes.Muxer.receiver.dispatch", "tubes.Muxer.Stop.stopping",
+}
+
+func c16PointIndex(name string) int {
+	for i, p := range c16Points {
+		if p == name {
+			return i
+		}
+	}
+	panic("unknown yield point " + name)
 }
 
 // Unreliable.Close holds lifecycleMu while it waits for the sender goroutine to finish.
@@ -83,7 +108,8 @@ var c16GoschedOnly = map[string]bool{"tubes.Unreliable.sender.loop": true}
 var c16OpNames = []string{"Write", "Read", "Close", "WaitForClose", "SetDeadline", "Stop", "Close+WaitForClose"}
 
 type c16T struct {
-	t        [2]Tube // the two ends
+	t        [2]Tube // the two ends; t[side] may only be read after ready[side] is closed
+	ready    [2]chan struct{} // closed once the end exists (established tubes: from the start)
 	wsem     [2]chan struct{} // serialises writers per end (a channel, so that waiting is a durable block)
 	woff     [2]int // bytes / messages written so far per side
 	roff     [2]int
@@ -139,13 +165,34 @@ func c16MsgOK(b []byte, tube, fromSide int) bool {
 	return n == len(b) && bytes.Equal(b, c16Msg(tube, fromSide, idx, n))
 }
 
+// end returns the tube end of a side, nil when it does not exist (a late tube that was not opened / not accepted).
+func (tb *c16T) end(side int) Tube {
+	select {
+	case <-tb.ready[side]:
+		return tb.t[side]
+	default:
+		return nil
+	}
+}
+
 func (r *c16Run) doOp(op c16Op, tag string) {
 	if op.DelayMs > 0 {
 		time.Sleep(time.Duration(op.DelayMs) * time.Millisecond)
 	}
 	tb := r.tubes[op.Tube%len(r.tubes)]
 	ti := op.Tube % len(r.tubes)
-	tube := tb.t[op.Side]
+	if op.Kind != 5 && tb.end(op.Side) == nil {
+		// an end of a late tube: wait (bounded) until it has been opened / handed out by Accept
+		select {
+		case <-tb.ready[op.Side]:
+		case <-time.After(2 * time.Second):
+			r.mu.Lock()
+			r.v.Label("op-skipped:tube-end-does-not-exist")
+			r.mu.Unlock()
+			return
+		}
+	}
+	tube := tb.end(op.Side)
 	name := c16OpNames[op.Kind]
 	key := fmt.Sprintf("%s:%s(side %d, tube %d)", tag, name, op.Side, ti)
 	r.mu.Lock()
@@ -312,6 +359,13 @@ func c16Scenario(c c16Case, v *vlib.Verdict) {
 		if !tc.ByA {
 			cr, ac = r.p.MB, r.p.MA
 		}
+		if tc.Late {
+			tt := &c16T{}
+			tt.wsem[0], tt.wsem[1] = make(chan struct{}, 1), make(chan struct{}, 1)
+			tt.ready[0], tt.ready[1] = make(chan struct{}), make(chan struct{})
+			r.tubes = append(r.tubes, tt)
+			continue
+		}
 		var t1 Tube
 		var err error
 		if tc.Rel {
@@ -330,6 +384,9 @@ func c16Scenario(c c16Case, v *vlib.Verdict) {
 		}
 		tt := &c16T{}
 		tt.wsem[0], tt.wsem[1] = make(chan struct{}, 1), make(chan struct{}, 1)
+		tt.ready[0], tt.ready[1] = make(chan struct{}), make(chan struct{})
+		close(tt.ready[0])
+		close(tt.ready[1])
 		if tc.ByA {
 			tt.t = [2]Tube{t1, t2}
 		} else {
@@ -350,6 +407,9 @@ func c16Scenario(c c16Case, v *vlib.Verdict) {
 		ti := pl.Tube % len(r.tubes)
 		tb := r.tubes[ti]
 		side := pl.Side & 1
+		if tb.end(0) == nil || tb.end(1) == nil {
+			continue // late tube: nothing to preload
+		}
 		for k := 0; k < pl.Count; k++ {
 			var data []byte
 			if tb.t[side].IsReliable() {
@@ -427,6 +487,73 @@ func c16Scenario(c c16Case, v *vlib.Verdict) {
 			}
 		})
 	}
+	// ---- late tubes: each muxer's application keeps accepting (as a session loop does) and every late tube is
+	// opened OpenMs after the program began. The accept loops end when their muxer is stopped.
+	anyLate := false
+	for _, tc := range c.Tubes {
+		anyLate = anyLate || tc.Late
+	}
+	if anyLate {
+		v.Label("with-late-tubes")
+		for side, m := range []*Muxer{r.p.MA, r.p.MB} {
+			go func(side int, m *Muxer) {
+				for {
+					tb, err := m.Accept()
+					if err != nil {
+						return
+					}
+					i := int(tb.Type()) - 20
+					if i >= 0 && i < len(r.tubes) && c.Tubes[i].Late && c.Tubes[i].ByA == (side == 1) && c.Tubes[i].Rel == tb.IsReliable() && r.tubes[i].end(side) == nil {
+						r.tubes[i].t[side] = tb
+						close(r.tubes[i].ready[side])
+						continue
+					}
+					// a second incarnation (the peer's request was answered, the answer lost, the first tube gone
+					// meanwhile): the application has no use for it
+					go tb.Close()
+				}
+			}(side, m)
+		}
+		for i, tc := range c.Tubes {
+			if !tc.Late {
+				continue
+			}
+			go func(i int, tc c16Tube) {
+				if tc.OpenMs > 0 {
+					time.Sleep(time.Duration(tc.OpenMs) * time.Millisecond)
+				}
+				m, side := r.p.MA, 0
+				if !tc.ByA {
+					m, side = r.p.MB, 1
+				}
+				// What CreateReliableTube / CreateUnreliableTube do, except that the identifier is chosen by the
+				// harness instead of pickTubeID: one that no other tube of the case ever has. The muxer would hand
+				// out the identifier of a tube that was closed a moment ago; what a reused identifier can do to the
+				// successor (frames carry no incarnation) is C09's subject and is listed there, not a shutdown matter.
+				id := byte(40+2*i) + m.idParity
+				var tb Tube
+				var err error
+				m.m.Lock()
+				if tc.Rel {
+					var x *Reliable
+					if x, err = m.makeReliableTubeWithID(TubeType(20+i), id, true); err == nil {
+						tb = x
+					}
+				} else {
+					var x *Unreliable
+					if x, err = m.makeUnreliableTubeWithID(TubeType(20+i), id, true); err == nil {
+						tb = x
+					}
+				}
+				m.m.Unlock()
+				if err != nil {
+					return // the muxer is already stopping: the tube never exists
+				}
+				r.tubes[i].t[side] = tb
+				close(r.tubes[i].ready[side])
+			}(i, tc)
+		}
+	}
 	// ---- run the program
 	var wg sync.WaitGroup
 	for pi, pr := range c.Procs {
@@ -464,24 +591,34 @@ func c16Scenario(c c16Case, v *vlib.Verdict) {
 		for ti, tb := range r.tubes {
 			r.mu.Lock()
 			both := tb.closedAt[0] > 0 && tb.closedAt[1] > 0
+			for side := 0; side < 2 && both; side++ {
+				// a Close that refused (tube in a bad state) has not started anything WaitForClose could wait for
+				if e := tb.closeErr[side][0]; e != nil && e != io.EOF {
+					both = false
+				}
+			}
 			r.mu.Unlock()
 			if !both {
 				continue
 			}
 			v.Label("both-ends-closed-on-delivering-network")
+			if c.Tubes[ti].Late {
+				v.Label("both-ends-closed-on-delivering-network:late-tube")
+			}
+			ends := [2]Tube{tb.end(0), tb.end(1)}
 			for side := 0; side < 2; side++ {
 				done := make(chan struct{})
-				go func(t Tube) { t.WaitForClose(); close(done) }(tb.t[side])
+				go func(t Tube) { t.WaitForClose(); close(done) }(ends[side])
 				select {
 				case <-done:
 				case <-time.After(30 * time.Second):
-					sig := "C16:waitforclose-stuck-after-both-closed:" + c16TubeState(tb.t[side]) + ":peer-" + c16TubeState(tb.t[1-side])
-					if ps := c16TubeState(tb.t[1-side]); ps == "rel-closed" {
-						sig = "C16:waitforclose-stuck-after-both-closed:" + c16TubeState(tb.t[side]) + ":peer-already-closed"
+					sig := "C16:waitforclose-stuck-after-both-closed:" + c16TubeState(ends[side]) + ":peer-" + c16TubeState(ends[1-side])
+					if ps := c16TubeState(ends[1-side]); ps == "rel-closed" {
+						sig = "C16:waitforclose-stuck-after-both-closed:" + c16TubeState(ends[side]) + ":peer-already-closed"
 					}
 					r.fail(sig,
 						"tube %d: both ends called Close (at %v and %v) and the network delivers, but WaitForClose on side %d has not returned 30 s later; states: this end %s, peer %s",
-						ti, tb.closedAt[0], tb.closedAt[1], side, c16TubeState(tb.t[side]), c16TubeState(tb.t[1-side]))
+						ti, tb.closedAt[0], tb.closedAt[1], side, c16TubeState(ends[side]), c16TubeState(ends[1-side]))
 				}
 			}
 		}
@@ -525,6 +662,9 @@ func c16Scenario(c c16Case, v *vlib.Verdict) {
 	if v.OK() {
 		for ti, tb := range r.tubes {
 			for side := 0; side < 2; side++ {
+				if tb.end(side) == nil {
+					continue // late tube that was never opened / never reached this side
+				}
 				done := make(chan string, 1)
 				if ut, ok := tb.t[side].(*Unreliable); ok {
 					go func() { done <- r.afterShutdownUnreliable(ut, ti, side) }()
@@ -827,6 +967,19 @@ func c16Gen(t *rapid.T) c16Case {
 	c.Tubes = rapid.SliceOfN(rapid.Custom(func(t *rapid.T) c16Tube {
 		return c16Tube{Rel: rapid.IntRange(0, 3).Draw(t, "rel") > 0, ByA: rapid.Bool().Draw(t, "byA")}
 	}), 1, 3).Draw(t, "tubes")
+	// one case in three has late tubes: not established beforehand but opened while the program runs, on the network
+	// with its faults armed (tubes that are still being initiated - or never get initiated - when Close / Stop / the
+	// forced close behind Stop happen)
+	anyLate := false
+	if rapid.IntRange(0, 2).Draw(t, "lateTubes") == 0 {
+		for i := range c.Tubes {
+			if rapid.Bool().Draw(t, "late") || (i == len(c.Tubes)-1 && !anyLate) {
+				c.Tubes[i].Late = true
+				c.Tubes[i].OpenMs = rapid.SampledFrom([]int{0, 0, 0, 1, 20, 400, 1500}).Draw(t, "openMs")
+				anyLate = true
+			}
+		}
+	}
 	opGen := rapid.Custom(func(t *rapid.T) c16Op {
 		op := c16Op{Side: rapid.IntRange(0, 1).Draw(t, "side"), Tube: rapid.IntRange(0, len(c.Tubes)-1).Draw(t, "tube")}
 		op.Kind = rapid.SampledFrom([]int{0, 0, 1, 1, 2, 2, 2, 3, 4, 5, 6, 6}).Draw(t, "kind")
@@ -852,9 +1005,18 @@ func c16Gen(t *rapid.T) c16Case {
 	c.FailClose = rapid.Bool().Draw(t, "failClose")
 	c.TimeoutMs = rapid.SampledFrom([]int{0, 0, 2000, 30000}).Draw(t, "timeout")
 	c.Yields = rapid.SliceOfN(rapid.Custom(func(t *rapid.T) c16Yield {
+		if anyLate && rapid.Bool().Draw(t, "initPath") {
+			// on the initiation / forced-close path, early visits, delays around the documented timers
+			// (initial retransmission interval 333 ms, muxerTimeout 1 s)
+			return c16Yield{Point: c16PointIndex(rapid.SampledFrom(c16InitPoints).Draw(t, "ipt")), Hit: rapid.IntRange(0, 2).Draw(t, "ihit"),
+				Us: rapid.SampledFrom([]int{100, 400000, 1200000, 1200000}).Draw(t, "ius")}
+		}
 		return c16Yield{Point: rapid.IntRange(0, len(c16Points)-1).Draw(t, "pt"), Hit: rapid.IntRange(0, 5).Draw(t, "hit"), Us: rapid.SampledFrom([]int{0, 1, 100, 5000, 400000, 1200000}).Draw(t, "us")}
 	}), 0, 6).Draw(t, "yields")
 	for ti, tc := range c.Tubes {
+		if tc.Late {
+			continue
+		}
 		for side := 0; side < 2; side++ {
 			cnt := rapid.SampledFrom([]int{0, 0, 0, 1, 2, 5, 20}).Draw(t, "preloadCount")
 			if cnt == 0 {
